@@ -1,6 +1,7 @@
 import StepModel.GenFiles
 import StepModel.GenCxxPass
 import StepModel.GenCollect
+import StepModel.GenSelectOrder
 /-! Line-protocol driver for the scanner / exp2cxx file-set model (C17; also used by C12 for orders and text).
 
   reset                                   -> ok
@@ -17,6 +18,7 @@ import StepModel.GenCollect
   printfile                               -> F <schema>=<suffix,…>;…  (SCHEMAprint calls predicted by Pass.printFile) | F hung | F unfinished
   cl <entity name> <dependent 0|1>       -> ok     (a ComplexList, in the order the constructor inserts them)
   collect                                 -> K name name …  (the `// ComplexList with supertype` lines of compstructs.cc, Collect.build) | K hung
+  selorder                                -> Q <schema>=c:<qname>,t:<qname>,…;…   (per schema in DICTdo order: TYPEPrint calls `c:` and typedef blocks `t:` of the select loop, SelOrder.visitAll)
   cxx auto | cxx <schema>=<k,k,…>;…       -> C f f …  |  C refused (identifier longer than MAX_IDENT_LEN: exit 1) | C unmodelled
 -/
 open StepModel.GenFiles StepModel.Generated.Scanner StepModel
@@ -111,6 +113,26 @@ def handle (st : St) (line : String) : St × String :=
     match Collect.build (fun a b => decide (a < b)) Generated.CxxCollect.removeScan (cs.length + 1) cs with
     | some l => (st, "K " ++ " ".intercalate (Collect.written l))
     | none => (st, "K hung")
+  | ["selorder"] =>
+    let f := st.file
+    let all : List (Char × String × Pass.Obj) := (st.pschemas.reverse.map fun (_, os) => os.reverse).flatten
+    let isSel (q : String) : Bool := all.any fun (_, _, o) => o.name == q && o.isSelect
+    let G (q : String) : Option SelOrder.Sel :=
+      match all.find? (fun (c, _, o) => c == 'T' && o.name == q && o.isSelect) with
+      | some (_, _, o) => match o.renameOf with
+        | some r => some (.renamed r)
+        | none => some (.items (o.items.filter isSel))
+      | none => none
+    let n := (all.filter fun (c, _, _) => c == 'T').length
+    let res := f.schemas.foldl (fun (acc : List String × List String) s =>
+        let roots := (s.decls.filterMap fun d => match d with
+          | .type t => some (s.name ++ "." ++ t.name)
+          | _ => none).filter isSel
+        let r := SelOrder.visitAll G (n + 1) roots { tagged := acc.1, out := [] }
+        (r.tagged, acc.2 ++ [s.name ++ "=" ++ ",".intercalate (r.out.map fun e => match e with
+          | .cls t => "c:" ++ t
+          | .typedefs t => "t:" ++ t)])) ([], [])
+    (st, "Q " ++ ";".intercalate res.2)
   | ["printfile"] =>
     -- schemas in DICTdo order of their names, types and entities in DICTdo order of the schema's symbol table
     let textual := st.pschemas.reverse.map fun (n, os) => (n, os.reverse)
